@@ -1086,6 +1086,7 @@ def _static_stamps(prog, chk, R, ex, ev):
                        'bare name keeps its dynamic class', key='stamp:erase:%s:%s' % (f.short, SX.show(l0)[:30]))
     chk.count('statement-level slot stores examined for erasure', ner, 3)
     _signature_labels(prog, chk, R)
+    _base_inheritance_siblings(prog, chk, R)
     # (c) a stamped null reference is costed by its stamp, only the literal null costs 3
     rt = R.ev_method('valueConversionCost')
     nulls = [i_ for i_ in SX.walk(rt.body, into_lambdas=False) if i_['k'] == 'if' and
@@ -1191,6 +1192,43 @@ def _signature_labels(prog, chk, R):
         chk.ob('R08.4', fn, fn.ln, not clash,
                'the signature label distinguishes every kind of parameter type (%d kinds): overloads whose labels coincide hide each other in the hierarchy walk, and a call that '
                'needs the hidden one is dropped; same label for: %s' % (len(kinds), clash), key='signature-label:' + fn.short)
+
+
+
+def _base_inheritance_siblings(prog, chk, R):
+    """The runtime class table is built in more than one place (ordinary classes in the class-table pass, specialisations of generic
+    classes on demand).  Each builder starts a class from its base by copying members (`rc->M = rc->base->M`).  The builders must
+    copy the same members: what one of them inherits and the other does not (a layout table, the dispatch table, a "has a destructor
+    somewhere in the chain" flag) differs between a class and the specialisation of a generic class with the same base."""
+    sites = {}
+    for f in prog.in_file('runtime_evaluator.cpp', with_lambdas=False):
+        if not f.body:
+            continue
+        for n in SX.walk(f.body, into_lambdas=False):
+            w = SX.write_target(n)
+            if not w or w[2] != '=':
+                continue
+            l, r = SX.strip(w[0]), SX.strip(w[1])
+            if not (SX.is_node(l) and l.get('k') == 'member' and SX.is_node(r) and r.get('k') == 'member' and l['name'] == r['name']):
+                continue
+            if 'RuntimeClass' not in (SX.strip(l['base']).get('t') or '') and 'RuntimeClass' not in (l.get('q') or ''):
+                continue
+            rb = SX.strip(r['base'])
+            while SX.is_node(rb) and rb.get('k') == 'opcall' and rb.get('op') in ('->', '*'):
+                rb = SX.strip(rb['args'][0])
+            via_base = SX.is_node(rb) and ((rb.get('k') == 'member' and rb.get('name') == 'base') or (rb.get('k') == 'ref' and 'base' in rb.get('name', '').lower()))
+            if via_base:
+                sites.setdefault(f.name, {})[l['name']] = n.get('ln', f.ln)
+    chk.count('builders of runtime classes that inherit members from the base', len(sites), 2)
+    allm = set()
+    for m in sites.values():
+        allm |= set(m)
+    for fn, m in sorted(sites.items()):
+        f = prog.by_name[fn][0]
+        missing = sorted(allm - set(m))
+        chk.ob('R08.1', f, f.ln, not missing,
+               '%s starts a class from its base without copying %s, which another builder of runtime classes does copy: a class and a specialisation of a generic class with the same '
+               'base then differ in what they inherit' % (f.short, missing), key='base-copy-siblings:' + f.short)
 
 
 def _stamp_functions(prog, R):
